@@ -168,7 +168,7 @@ func pbErrClass(err error) string {
 func execPB(in In, em *Emitter) {
 	var wire []byte
 	rpos := 0
-	dst := map[string]proto.Message{} // destination messages are reused across calls, as a caller would
+	dst := map[string]proto.Message{}        // destination messages are reused across calls, as a caller would
 	em.Emit("Stream", J{"bytes": []int64{}}) // every history starts on a fresh, empty stream
 	for _, op := range in.L("ops") {
 		k := op.S("k")
@@ -270,6 +270,7 @@ func execPB(in In, em *Emitter) {
 // ---- generation
 
 var pbBodyLens = []int{0, 1, 2, 31, 32, 33, 100, 300}
+
 // versions related to each other: a version, the same followed by NUL and more bytes, by other bytes, a prefix
 // of it (a decoder that remembers the previous version must not confuse them)
 var pbVerFamilies = [][]string{
@@ -445,7 +446,7 @@ func genC07(g *Gen) {
 			bl = r.Intn(120)
 		}
 		if m%5 == 4 {
-			kind = "raw"                                          // the encoding is the payload: cut points are exact
+			kind = "raw"                                              // the encoding is the payload: cut points are exact
 			bl = []int{4097, 8200, 4090 + r.Intn(20), 12300}[(m/5)%4] // bodies beyond 4 KiB: buffered / chunked I/O boundaries
 		}
 		mk := pbMarshalOp(g, kind, bl)
